@@ -168,10 +168,10 @@ CHECKS = {
     "C20": ("model_checking",
             "Knock.tla models probe grouping per (source, protocol class), distinct port collection, and the quiet-period report-and-"
             "remove; UniqueSet.tla the insertion-ordered set with Each-while-removing; TLC checks PortsExactlyDistinctProbed, "
-            "ReportedOncePerBurst, NoDuplicates and EachExact, and requires the transcribed deviations and the group-ignores-source-address regression to violate them; all "
+            "ReportedOncePerBurst, NoDuplicates and EachExact, and requires the transcribed deviations (among them stale_group_kept: a group that has grown old while OTHER sources kept the quiet timer from firing is reported at every tick) and the group-ignores-source-address regression to violate them; all "
             "interleaved bursts of <= 3 probes from 3 sources (exhaustive), simulated bursts of 8 and seeded bursts of up to 150 "
             "probes from up to 4 sources (two of the three model sources sit behind one gateway: same source hardware address) are injected as real SYN / UDP / ICMP frames into one real Canary each (hooks), the real "
-            "5 s quiet timer is waited for twice, and per source the union of reported ports must be exactly the distinct pairs "
+            "5 s quiet timer is waited for twice (paced scans of 6-9 s and one crowded minute - a burst, then another source knocking every 4 s for 68 s - included), and per source the union of reported ports must be exactly the distinct pairs "
             "probed, each once; every UniqueSet transition and all operation sequences up to length 4 (quick) / 6 (thorough) run on "
             "the real canary.UniqueSet with the TLC table as oracle.",
             "Synchronous frame injection through a hook that mirrors the dispatch of the receive loop; one report per protocol "
@@ -266,10 +266,10 @@ CHECKS = {
             "DESIGN.md §3 C09"),
     "C15": ("model_checking",
             "Proxy.tla models a client connection's two FIFO legs through a proxy to its one configured backend (send, forward, backend "
-            "reply, back) with the invariants BackendSawExactlyClientSent, ClientSawExactlyBackendSent and OnlyBackendDialled; TLC draws "
-            "exchanges (http: 1..3 requests over methods, targets, header sets incl. repeated names and with/without User-Agent, bodies "
+            "reply, back) with the invariants BackendSawExactlyClientSent, ClientSawExactlyBackendSent (for both reply streams) and OnlyBackendDialled; TLC draws "
+            "exchanges (http: 1..3 requests over methods incl. HEAD, targets, header sets incl. repeated names and with/without User-Agent, bodies "
             "0..64 KiB content-length or chunked, replies 0..64 KiB split at a cut point, pipelined or lock-step, 1..3 concurrent clients; "
-            "copy streams incl. half-closing clients; ssh sessions through ssh-proxy against an ssh backend fixture; dns datagrams; director hosts "
+            "copy streams incl. half-closing clients; ssh sessions through ssh-proxy against an ssh backend fixture, whose reply has two streams (standard output and, as extended data, standard error: ErrOut); dns datagrams; director hosts "
             "with and without a port, two listener ports sharing one director), checks every interleaving of the model on each, and requires the deviations found in the code to "
             "violate the invariants; every exchange is played against the REAL server with the real socket listener and forward directors on "
             "loopback: harness backends record what they receive and answer, a decoy listener must never be contacted, and what backend and "
